@@ -250,7 +250,17 @@ def run_function_level(sc, case, rng, out, roots_unused):
     audit = fsobs.AuditLog(roots)
     audit.start()
     label = "function level, variant %s" % (VARIANTS[case["variant"]],)
-    seq = [rng.choice(["a", "b", "n", "e", "z", "z"]) for _ in range(12)]
+    def on_disk():  # a result that stages its values in a directory of its own while it is being built
+        from twosigma.memento.storage_filesystem import OnDiskPartition
+
+        p = OnDiskPartition()
+        p["k"] = [1, 2]
+        p["s"] = "staged"
+        return p
+
+    ffuncs.TABLE["od"] = on_disk
+    kept = []  # results stay alive until the storage paths have been looked at
+    seq = [rng.choice(["a", "b", "n", "e", "z", "z", "od"]) for _ in range(12)]
     for cid in seq:
         mark = REC.mark()
         try:
@@ -261,8 +271,9 @@ def run_function_level(sc, case, rng, out, roots_unused):
             got = ("raise", type(e).__name__ + ": " + str(e)[:100])
         ran = len(REC.since(mark))
         out["obs"]["ro_function_calls"] += 1
-        memoized = cid != "z"
-        exp = ("raise", "ValueError") if cid == "e" else ("ret", ffuncs.TABLE[cid])
+        memoized = cid not in ("z", "od")
+        kept.append(got)
+        exp = ("raise", "ValueError") if cid == "e" else ("ret", on_disk() if cid == "od" else ffuncs.TABLE[cid])
         if got[0] != exp[0] or (got[0] == "ret" and not domain.eq(got[1], exp[1])) or (got[0] == "raise" and got[1] != exp[1]):
             out["viol"].append({"sig": "call through a read-only cluster returns a wrong outcome",
                                 "msg": "%s: produce(%r) gave %s" % (label, cid, domain.describe(got))})
